@@ -109,7 +109,22 @@ def _observe(source, target, tb, fb, items):
     else:
         # too large for the exhaustive reference: a NECESSARY condition of a maximum total is still decidable -- no source
         # left unpaired may have positive affinity with a target left unpaired (pairing the two would add to the total)
-        c.note("optimality_not_judged_large_input")
+        if n * m <= 4500:
+            # ... and up to a few thousand pairs the maximum itself has a polynomial reference that is not the library's: the
+            # Hungarian optimum (scipy) of the reference affinity matrix
+            import numpy as _np
+            from scipy.optimize import linear_sum_assignment as _lsa
+
+            c.mon("match.optimality_hungarian_reference")
+            M = _np.array([[_affinity(s, t, tb, fb) for t in target] for s in source], dtype=float)
+            ri, ci = _lsa(M, maximize=True)
+            best = float(M[ri, ci].sum())
+            if abs(best - total) > REAL_TOL * max(1.0, best):
+                c.violate("optimal_total", "optimal_total:hungarian_reference", observed=total, expected=best,
+                          spec=spec if n * m <= 400 else {"kind": "match", "source": ss, "target": ts, "tb": tb, "fb": fb})
+                return
+        else:
+            c.note("optimality_not_judged_large_input")
         us = [i for i, j, _ in items if j is None]
         ut = [j for i, j, _ in items if i is None]
         budget = 3000
@@ -332,6 +347,19 @@ def run(ctx):
     sizes = [(rng.randint(8, 14), rng.randint(8, 14)) for _ in range(ctx.scale(3, 20))]
     # list lengths just below / at / above 16, 32, 64, 128, 256 on one or both sides
     sizes += [(16, 17), (17, 17), (33, 16), (31, 65), (64, 64), (129, 40), (3, 257), (256, 5)] if (ctx.shard == 0 or ctx.thorough) else []
+    # dense overlap: every source overlaps every target (nested intervals / boxes sharing an origin), so that each row and
+    # column of the affinity matrix has dozens of candidates and the optimum needs pairs that are nobody's favourite
+    for n, m in ([(40, 40), (34, 33)] if (ctx.shard == 0 or ctx.thorough) else [(rng.randint(33, 48), rng.randint(33, 48))]):
+        for kind in ("TimeInterval", "BoundingBox"):
+            t0 = rng.choice([0.0, 16.0, 1024.0])
+            mk = (lambda w_: {"type": "TimeInterval", "coordinates": [t0, t0 + w_]}) if kind == "TimeInterval" else \
+                 (lambda w_: {"type": "BoundingBox", "coordinates": [t0, 1000.0, t0 + w_, 5000.0]})
+            ss = [mk(1.0 - 0.02 * i) for i in range(n)]
+            ts = [mk(1.0 + 0.1 * j) for j in range(m)]
+            if kind == "BoundingBox":
+                rng.shuffle(ss); rng.shuffle(ts)
+            ctx.case(("large", "dense_nested", kind), {"source": ss[:3], "target": ts[:3], "tb": 0.0, "fb": 0.0, "n": n, "m": m})
+            judge(ctx, ss, ts, 0.0, 0.0)
     for n, m in sizes:
         bs, bt = _cluster(rng, n, m, "mixed")
         ss = [geoms.geom_in_box(rng, "BoundingBox", *b) for b in bs]
